@@ -209,6 +209,14 @@ func addScrubFieldsToSelectionSet(ctx *PlanningContext, selectionSet ast.Selecti
 		}
 
 		isImplementsNode = isImplementsNode && fd != nil
+	} else if common.IsRootObjectName(fieldname) {
+		// a field that hands out a root type again (`query: Query`): everything selected below it
+		// may live at other services, the helper keeps the selection of this service non-empty
+		if !isContainsField(selectionSet, common.TypenameFieldName) {
+			selectionSet = addTypenameFieldToSelectionSet(selectionSet)
+			addedFields = append(addedFields, common.TypenameFieldName)
+		}
+		return selectionSet, addedFields
 	} else {
 		isImplementsNode, _ = ctx.TypeURLMap.GetTypeIsImplementsNode(fieldname)
 	}
